@@ -80,7 +80,7 @@ PROPS = {
     "C03": [S("C03")],
     "C04": [S("C04")],
     "C05": [S("C05")],
-    "C06": [S("C06")],
+    "C06": [S("C06"), K("c06")],
     "C07": [S("C07")],
     "C08": [S("C08")],
     "C09": [S("C09"), K("c09")],
